@@ -9,6 +9,7 @@ def main(argv):
         print("usage: check Cxx quick|thorough | check Cxx --replay <path>")
         return 2
     pid = argv[1]
+    os.makedirs(os.path.join(os.path.dirname(os.path.dirname(os.path.abspath(__file__))), "coq", "Run"), exist_ok=True)
     mode = argv[2] if len(argv) > 2 else os.environ.get("VERIF_TIER", "quick")
     seed = int(os.environ.get("VERIF_SEED", "0"))
     try:
